@@ -706,6 +706,82 @@ def drv_dot(c, ctx, col):
 
 # ----------------------------------------------------------------------------
 
+# ----------------------------------------------------------------------------
+# '.' in ONE-SIDED formulas next to other terms, through parsers that do and do not insert an intercept
+
+ONE_SIDED = [".", "C0 + .", ". + C0", "log(C0) + .", ". + log(C1)", ". + C0:C1", "C0:C1 + .", ". - C0", "log(C0):C1 + . - C1"]
+ONE_ROUTES = ["model_matrix(text, data)", "Formula(text, _context=available)", "parser(include_intercept=True)", "parser(include_intercept=False)",
+              "Formula([text], _context=available)", "Formula(rhs=text, _context=available).rhs", "model_matrix({'rhs': text}, data).rhs"]
+
+
+def drv_dot_one_sided(c, ctx, col):
+    from formulaic import Formula, model_matrix
+    from formulaic.parser import DefaultFormulaParser
+
+    k = c.upto(ctx["max_cols"])
+    cols = []
+    rest = list(ctx["pool"])
+    for _ in range(k):
+        cols.append(rest.pop(c.choose(len(rest))))
+    shape = c.pick(ONE_SIDED)
+    route = c.pick(ONE_ROUTES)
+    if ("C1" in shape and len(cols) < 2) or ("C0" in shape and len(cols) < 1):
+        raise Skip()
+    c0 = cols[0] if cols else None
+    c1 = cols[1] if len(cols) > 1 else None
+    text = shape.replace("C0", q(c0) if c0 else "").replace("C1", q(c1) if c1 else "")
+    # expected terms in parse order: '+' appends what is not yet present ('.' = every column, in data order), '-' removes
+    items, sign = [], "+"
+    for tok in shape.split(" "):
+        if tok in "+-":
+            sign = tok
+            continue
+        new = list(cols) if tok == "." else [tok.replace("C0", c0 or "").replace("C1", c1 or "")]
+        new = [n if not n.startswith("log(") else "log(%s)" % q(n[4:n.index(")")]) + n[n.index(")") + 1:] for n in new]
+        for n in new:
+            if sign == "+" and n not in items:
+                items.append(n)
+            elif sign == "-" and n in items:
+                items.remove(n)
+    deg = lambda n: 2 if (n.startswith("log(") and "):" in n) or (":" in n and not n.startswith("log(") and n not in cols) else 1  # noqa: E731
+    sorts = route not in ("parser(include_intercept=True)", "parser(include_intercept=False)")
+    want = sorted(items, key=deg) if sorts else items
+    want_icpt = route in ("model_matrix(text, data)", "Formula(text, _context=available)", "parser(include_intercept=True)")
+    data = pd.DataFrame({n: DOT_VALUES[n] for n in cols}, index=range(4))
+    avail = {"__formulaic_variables_available__": list(cols)}
+    cfg = "columns=%r via %s" % (cols, route)
+    col.sample({"formula": text, "columns": cols, "expected_terms": want, "route": route})
+    got = []
+
+    def run():
+        if route.startswith("model_matrix"):
+            mm = model_matrix(text, data) if route == "model_matrix(text, data)" else model_matrix({"rhs": text}, data).rhs
+            names = list(mm.columns)
+        else:
+            if route == "Formula(text, _context=available)":
+                f = Formula(text, _context=avail)
+            elif route == "Formula([text], _context=available)":
+                f = Formula([text], _context=avail)
+            elif route == "Formula(rhs=text, _context=available).rhs":
+                f = Formula(rhs=text, _context=avail).rhs
+            else:
+                f = DefaultFormulaParser(include_intercept=route.endswith("True)")).get_terms(text, context=dict(avail)).root
+            names = ["Intercept" if str(t) == "1" else ":".join(f_.expr for f_ in t.factors) for t in f]
+        got.append(names)
+
+    o = outcome(run)
+    col.interesting()
+    detail = {"formula": text, "columns_in_data_order": cols, "route": route, "want": (["Intercept"] if want_icpt else []) + want,
+              "repro": "from formulaic import *; from formulaic.parser import DefaultFormulaParser; "
+                       "print(DefaultFormulaParser(include_intercept=False).get_terms(%r, context={'__formulaic_variables_available__': %r}))" % (text, cols)}
+    if o[0] != "ok":
+        col.violation("dot-one-sided-fails :: %r :: %s" % (text, cfg), dict(detail, outcome=o), sig="dot-expansion-fails")
+    elif got[0] != detail["want"]:
+        col.violation("dot-one-sided-wrong :: %r :: %s" % (text, cfg), dict(detail, got=got[0]), sig="dot-expansion-wrong")
+    else:
+        col.count("agree")
+
+
 def _hist_terms():
     from formulaic import Formula
     return {t: Formula([t], _ordering="none")[0] for t in HIST_NEW}
@@ -743,6 +819,10 @@ def subchecks(tier, seed):
         Sub("dot", drv_dot, {"lhs_forms": DOT_FORMS, "pool": pool, "max_cols": 3 if quick else 4}, shard_depth=3,
             bounds={"column_pool": pool, "column_lists": "every ordered list of <= %d distinct names" % (3 if quick else 4),
                     "lhs": "every subset of the columns", "lhs_forms": DOT_FORMS + ["'.'", "'~ .'"], "entry_points": DOT_ROUTES}),
+        Sub("dot-one-sided", drv_dot_one_sided, {"pool": ["x", "y", "w v", "S.L"], "max_cols": 3 if quick else 4}, shard_depth=3,
+            bounds={"column_pool": ["x", "y", "w v", "S.L"], "column_lists": "every ordered list of <= %d distinct names" % (3 if quick else 4),
+                    "formulas": ONE_SIDED, "entry_points": ONE_ROUTES,
+                    "note": "one-sided formulas: '.' = every column; parsers with and without intercept insertion (the nested parser of list / rhs= / dict specs)"}),
         Sub("dot-special-names", drv_dot, {"lhs_forms": SPECIAL_FORMS, "pool": spool, "max_cols": 3 if quick else 4}, shard_depth=3,
             bounds={"column_pool": spool, "column_lists": "every ordered list of <= %d distinct names" % (3 if quick else 4),
                     "lhs": "every subset of the columns", "lhs_forms": SPECIAL_FORMS + ["'.'", "'~ .'"], "entry_points": DOT_ROUTES,
